@@ -294,9 +294,13 @@ def check(case: Dict[str, Any]) -> Outcome:
             for r_, w_ in streams:
                 await send_ping(r_, w_, timeout=10)  # a real command talks to its servers
 
+        run_names = [s["name"] for s in servers]
+        if case.get("ghost_at") is not None:
+            # a name that is not configured, somewhere in the list: it must simply be skipped
+            run_names.insert(case["ghost_at"] % (len(run_names) + 1), "no-such-server")
         with Silence():
             try:
-                run_command(cmd, path, [s["name"] for s in servers])
+                run_command(cmd, path, run_names)
                 raised = None
             except BaseException as e:  # noqa
                 raised = e
@@ -362,6 +366,8 @@ def cases(draw):
     m = draw(st.sampled_from([None] * 8 + ["missing_file", "truncated", "trailing_comma", "empty", "unknown_server"]))
     if m:
         case["malformed"] = m
+    elif draw(st.integers(0, 2)) == 0:
+        case["ghost_at"] = draw(st.integers(0, 4))
     return case
 
 
